@@ -13,9 +13,12 @@ import (
 	"golang.org/x/net/idna"
 
 	"github.com/emersion/go-message/textproto"
+	"github.com/emersion/go-msgauth/authres"
 	"github.com/emersion/go-smtp"
+	"github.com/foxcpp/go-mockdns"
 	"github.com/foxcpp/maddy/framework/address"
 	"github.com/foxcpp/maddy/framework/buffer"
+	"github.com/foxcpp/maddy/framework/dns"
 	"github.com/foxcpp/maddy/framework/log"
 	"github.com/foxcpp/maddy/framework/module"
 	"github.com/foxcpp/maddy/internal/modify"
@@ -53,6 +56,113 @@ func (d *c09PDelivery) BodyNonAtomic(ctx context.Context, sc module.StatusCollec
 }
 func (d *c09PDelivery) Abort(ctx context.Context) error  { return nil }
 func (d *c09PDelivery) Commit(ctx context.Context) error { return nil }
+
+// scripted target WITHOUT per-recipient results (no BodyNonAtomic): Body succeeds or fails for the whole
+// delivery; the pipeline itself has to produce the per-recipient results of a failure
+type c09ATarget struct {
+	fail bool
+}
+type c09ADelivery struct {
+	t *c09ATarget
+}
+
+func (t *c09ATarget) Start(ctx context.Context, m *module.MsgMetadata, from string) (module.Delivery, error) {
+	return &c09ADelivery{t: t}, nil
+}
+func (d *c09ADelivery) AddRcpt(ctx context.Context, to string, _ smtp.RcptOptions) error { return nil }
+func (d *c09ADelivery) Body(ctx context.Context, h textproto.Header, b buffer.Buffer) error {
+	if d.t.fail {
+		return errors.New("storage unavailable")
+	}
+	return nil
+}
+func (d *c09ADelivery) Abort(ctx context.Context) error  { return nil }
+func (d *c09ADelivery) Commit(ctx context.Context) error { return nil }
+
+// c09PPlan: where the body stage of one pipeline fails as a whole and what kind of target is behind it.
+// Token `S<stage>/<tgt>[/<routed>]` (outer pipeline) and `I<stage>/<tgt>` (nested pipeline):
+//
+//	stage  - none | cg cs cr body check rejects (global / source block / destination blocks) |
+//	       ar applyResults fails (DMARC policy reject) | mg ms mr RewriteBody of a modifier fails (global / source / destination blocks)
+//	tgt    p per-recipient (PartialDelivery) target | a target without per-recipient results, Body succeeds | A Body fails
+//	routed (tgt a/A only) `*` or absent: every direct recipient goes to that target; a `+` list of tokens: only the
+//	       recipients of per-address destination blocks for these (key address.ForLookup) do, the rest go to the per-recipient target
+type c09PPlan struct {
+	stage  string
+	tgt    byte
+	all    bool
+	routed map[string]bool
+}
+
+func c09PParsePlan(tok string) *c09PPlan {
+	f := strings.Split(tok[1:], "/")
+	if len(f) < 2 || len(f[1]) != 1 {
+		return nil
+	}
+	p := &c09PPlan{stage: f[0], tgt: f[1][0], all: true, routed: map[string]bool{}}
+	if len(f) > 2 && f[2] != "*" {
+		p.all = false
+		for _, t := range strings.Split(f[2], "+") {
+			k, _ := address.ForLookup(c09PAddr(t))
+			p.routed[k] = true
+		}
+	}
+	return p
+}
+
+// c09PBuild: the configuration of one pipeline: the rewriting modifier at `place`, the failing stage of `stage`;
+// mk makes a destination block (the destination-level modifiers and checks are the same in every block).
+func c09PBuild(rw map[string][]string, place, stage, inst string) (cfg msgpipelineCfg, mk func(t module.DeliveryTarget) *rcptBlock, res dns.Resolver) {
+	mod := testutils.Modifier{InstName: inst, RcptTo: rw}
+	bad := testutils.Modifier{InstName: inst + "_body", BodyErr: errors.New("cannot sign")}
+	rej := &testutils.Check{InstName: inst + "_check", BodyRes: module.CheckResult{Reject: true, Reason: errors.New("refused by policy")}}
+	var g, s, r []module.Modifier
+	var gc, sc, rc []module.Check
+	switch place {
+	case "g":
+		g = append(g, mod)
+	case "s":
+		s = append(s, mod)
+	default:
+		r = append(r, mod)
+	}
+	switch stage {
+	case "mg":
+		g = append(g, bad)
+	case "ms":
+		s = append(s, bad)
+	case "mr":
+		r = append(r, bad)
+	case "cg":
+		gc = append(gc, rej)
+	case "cs":
+		sc = append(sc, rej)
+	case "cr":
+		rc = append(rc, rej)
+	case "ar":
+		// DKIM passes for another domain than the header From, whose DMARC policy is reject
+		gc = append(gc, &testutils.Check{InstName: inst + "_auth", BodyRes: module.CheckResult{AuthResult: []authres.Result{
+			&authres.DKIMResult{Value: authres.ResultPass, Domain: "example.org"},
+			&authres.SPFResult{Value: authres.ResultNone, From: "example.org", Helo: "mx.example.org"},
+		}}})
+		res = &mockdns.Resolver{Zones: map[string]mockdns.Zone{"_dmarc.example.com.": {TXT: []string{"v=DMARC1; p=reject"}}}}
+	}
+	mk = func(t module.DeliveryTarget) *rcptBlock {
+		return &rcptBlock{targets: []module.DeliveryTarget{t}, modifiers: modify.Group{Modifiers: r}, checks: rc}
+	}
+	cfg = msgpipelineCfg{
+		globalChecks:    gc,
+		globalModifiers: modify.Group{Modifiers: g},
+		perSource:       map[string]sourceBlock{},
+		defaultSource: sourceBlock{
+			checks:    sc,
+			modifiers: modify.Group{Modifiers: s},
+			perRcpt:   map[string]*rcptBlock{},
+		},
+		doDMARC: stage == "ar",
+	}
+	return cfg, mk, res
+}
 
 type c09PCol struct {
 	mu sync.Mutex
@@ -274,66 +384,67 @@ func c09Pipe(out *vh.Out, op string) {
 			out.Stat("pipe.metadata-with-table-of-an-earlier-pipeline")
 		}
 	}
-	tgt := &c09PTarget{fail: fail}
-	mod := testutils.Modifier{InstName: "verif_rewrite", RcptTo: rw}
+	outerPlan := &c09PPlan{stage: "-", tgt: 'p', all: true}
+	innerPlan := &c09PPlan{stage: "-", tgt: 'p', all: true}
+	for _, tk := range toks[min(5, len(toks)):] {
+		switch tk[0] {
+		case 'S':
+			if pl := c09PParsePlan(tk); pl != nil {
+				outerPlan = pl
+			}
+		case 'I':
+			if pl := c09PParsePlan(tk); pl != nil {
+				innerPlan = pl
+			}
+		}
+	}
+	mkTarget := func(pl *c09PPlan) module.DeliveryTarget {
+		if pl.tgt == 'p' {
+			return &c09PTarget{fail: fail}
+		}
+		return &c09ATarget{fail: pl.tgt == 'A'}
+	}
 	// where the rewriting modifier sits: g = global, s = source block, r = recipient block
 	place := "g"
 	if len(toks) > 4 {
 		place = toks[4]
 	}
-	grp := modify.Group{Modifiers: []module.Modifier{mod}}
-	cfg := msgpipelineCfg{
-		perSource: map[string]sourceBlock{},
-		defaultSource: sourceBlock{
-			perRcpt:     map[string]*rcptBlock{},
-			defaultRcpt: &rcptBlock{targets: []module.DeliveryTarget{tgt}},
-		},
+	cfg, mkBlock, resolver := c09PBuild(rw, place, outerPlan.stage, "verif_rewrite")
+	if outerPlan.tgt == 'p' || outerPlan.all {
+		cfg.defaultSource.defaultRcpt = mkBlock(mkTarget(outerPlan))
+	} else {
+		cfg.defaultSource.defaultRcpt = mkBlock(&c09PTarget{fail: fail})
 	}
 	if nest != nil {
-		// the nested pipeline: its own rewriting modifier, its own per-recipient target
-		igrp := modify.Group{Modifiers: []module.Modifier{testutils.Modifier{InstName: "verif_rewrite_inner", RcptTo: nest.rw}}}
-		icfg := msgpipelineCfg{
-			perSource: map[string]sourceBlock{},
-			defaultSource: sourceBlock{
-				perRcpt:     map[string]*rcptBlock{},
-				defaultRcpt: &rcptBlock{targets: []module.DeliveryTarget{&c09PTarget{fail: fail}}},
-			},
-		}
-		switch nest.place {
-		case 'g':
-			icfg.globalModifiers = igrp
-		case 's':
-			icfg.defaultSource.modifiers = igrp
-		default:
-			icfg.defaultSource.defaultRcpt.modifiers = igrp
-		}
-		inner := &MsgPipeline{msgpipelineCfg: icfg, Log: log.Logger{Out: log.NopOutput{}}}
+		// the nested pipeline: its own rewriting modifier, its own target
+		icfg, imk, ires := c09PBuild(nest.rw, string(rune(nest.place)), innerPlan.stage, "verif_rewrite_inner")
+		icfg.defaultSource.defaultRcpt = imk(mkTarget(innerPlan))
+		inner := &MsgPipeline{msgpipelineCfg: icfg, Log: log.Logger{Out: log.NopOutput{}}, Resolver: ires}
 		var ntgt module.DeliveryTarget = inner
 		if nest.kind == 'M' {
 			ntgt = &Module{instName: "verif_nested", MsgPipeline: inner}
 		}
 		if nest.all {
-			cfg.defaultSource.defaultRcpt = &rcptBlock{targets: []module.DeliveryTarget{ntgt}}
+			cfg.defaultSource.defaultRcpt = mkBlock(ntgt)
 		} else {
 			for k := range nest.routed {
-				cfg.defaultSource.perRcpt[k] = &rcptBlock{targets: []module.DeliveryTarget{ntgt}}
+				cfg.defaultSource.perRcpt[k] = mkBlock(ntgt)
 			}
 		}
 		out.Stat("pipe.nested.kind." + string(rune(nest.kind)))
 		out.Stat("pipe.nested.inner-place." + string(rune(nest.place)))
+		out.Stat("pipe.nested.inner-stage." + innerPlan.stage + "/" + string(rune(innerPlan.tgt)))
 	}
-	switch place {
-	case "g":
-		cfg.globalModifiers = grp
-	case "s":
-		cfg.defaultSource.modifiers = grp
-	default:
-		cfg.defaultSource.defaultRcpt.modifiers = grp
-		for _, b := range cfg.defaultSource.perRcpt {
-			b.modifiers = grp
+	if outerPlan.tgt != 'p' && !outerPlan.all {
+		alt := mkTarget(outerPlan)
+		for k := range outerPlan.routed {
+			if _, taken := cfg.defaultSource.perRcpt[k]; !taken {
+				cfg.defaultSource.perRcpt[k] = mkBlock(alt)
+			}
 		}
 	}
-	d := MsgPipeline{msgpipelineCfg: cfg, Log: log.Logger{Out: log.NopOutput{}}}
+	d := MsgPipeline{msgpipelineCfg: cfg, Log: log.Logger{Out: log.NopOutput{}}, Resolver: resolver}
+	out.Stat("pipe.stage." + outerPlan.stage + "/" + string(rune(outerPlan.tgt)))
 	out.Stat("pipe.place." + place)
 	ctx := context.Background()
 	delivery, err := d.Start(ctx, &module.MsgMetadata{ID: "verif", OriginalRcpts: pre}, "sender@example.com")
@@ -351,6 +462,7 @@ func c09Pipe(out *vh.Out, op string) {
 	col := &c09PCol{}
 	hdr := textproto.Header{}
 	hdr.Add("Subject", "x")
+	hdr.Add("From", "<sender@example.com>")
 	delivery.(module.PartialDelivery).BodyNonAtomic(ctx, col, hdr, buffer.MemoryBuffer{Slice: []byte("x\r\n")})
 	delivery.Commit(ctx)
 	// canonical form: the token names of the addresses (an address the op does not mention: ?hex)
@@ -387,9 +499,17 @@ func c09Pipe(out *vh.Out, op string) {
 	}
 	// each client-supplied recipient gets one result per FINAL effective recipient it was expanded to
 	// (through the outer and, when routed there, the nested pipeline), per AddRcpt call with it
-	// (collisions of two DIFFERENT client addresses on one effective address are the known finding KF-C09-1)
+	// (collisions of two DIFFERENT client addresses on one effective address are the known finding KF-C09-1).
+	// A result is either what a per-recipient target said about the final address (tgt D / N), or a failure the
+	// PIPELINE generates for the recipients of a delivery that failed as a whole (body check / modifier /
+	// applyResults failure: every recipient; Body error of a target without per-recipient results: its
+	// recipients). A target without per-recipient results whose Body succeeded (tgt a) reports nothing:
+	// silence stands for success there, a result is not demanded - but none may be a failure.
 	type fin struct{ tgt, addr string }
+	outerFail := outerPlan.stage != "-"
+	innerFail := nest != nil && innerPlan.stage != "-"
 	finOf := map[string][]fin{}
+	viaOuter := map[string]bool{} // outer effective address whose results go through the outer reverse translation
 	firstNested := ""
 	for _, c := range distinct {
 		for _, e := range effOf[c] {
@@ -397,21 +517,41 @@ func c09Pipe(out *vh.Out, op string) {
 			if place == "r" {
 				look = c // the destination block is chosen before its modifiers rewrite the address
 			}
-			routed := false
-			if nest != nil {
-				k, _ := address.ForLookup(look)
-				routed = nest.all || nest.routed[k]
+			k, _ := address.ForLookup(look)
+			// per-address destination blocks come before the default one
+			altBlock := outerPlan.tgt != 'p' && !outerPlan.all && outerPlan.routed[k]
+			routed := nest != nil && (nest.routed[k] || (nest.all && !altBlock))
+			var ys []string
+			if routed {
+				ys = []string{e}
+				if len(nest.rw[e]) > 0 {
+					ys = nest.rw[e]
+					out.Stat("pipe.nested.rewritten-again-by-inner")
+				}
 			}
 			switch {
-			case !routed:
-				finOf[c] = append(finOf[c], fin{"D", e})
-			case len(nest.rw[e]) > 0:
-				for _, y := range nest.rw[e] {
+			case outerFail:
+				finOf[c] = append(finOf[c], fin{"F", e}) // one failure per entry of delivery.recipients
+			case routed && innerFail:
+				for _, y := range ys {
+					finOf[c] = append(finOf[c], fin{"NF", y})
+				}
+				viaOuter[e] = true
+			case routed && innerPlan.tgt != 'p':
+				for _, y := range ys {
+					finOf[c] = append(finOf[c], fin{"N" + string(rune(innerPlan.tgt)), y})
+				}
+				viaOuter[e] = viaOuter[e] || innerPlan.tgt == 'A'
+			case routed:
+				for _, y := range ys {
 					finOf[c] = append(finOf[c], fin{"N", y})
 				}
-				out.Stat("pipe.nested.rewritten-again-by-inner")
+				viaOuter[e] = true
+			case outerPlan.tgt != 'p' && (outerPlan.all || outerPlan.routed[k]):
+				finOf[c] = append(finOf[c], fin{string(rune(outerPlan.tgt)), e})
 			default:
-				finOf[c] = append(finOf[c], fin{"N", e})
+				finOf[c] = append(finOf[c], fin{"D", e})
+				viaOuter[e] = true
 			}
 			if routed && e != c {
 				out.Stat("pipe.nested.outer-rewritten-recipient-routed-into-nest")
@@ -421,7 +561,7 @@ func c09Pipe(out *vh.Out, op string) {
 	if nest != nil {
 		for _, c := range clients { // AddRcpt order
 			for _, f := range finOf[c] {
-				if f.tgt == "N" && firstNested == "" {
+				if f.tgt[0] == 'N' && firstNested == "" {
 					firstNested = c
 					if len(effOf[c]) != 1 || effOf[c][0] != c {
 						out.Stat("pipe.nested.started-by-a-rewritten-recipient")
@@ -431,18 +571,28 @@ func c09Pipe(out *vh.Out, op string) {
 				}
 			}
 		}
-		if firstNested == "" {
+		if firstNested == "" && !outerFail {
 			out.Stat("pipe.nested.never-started")
 		}
 	}
 	collide := map[string]int{}
+	collideAny := map[string]int{}
 	collideFin := map[fin]int{}
 	for _, c := range distinct {
+		seen := map[string]bool{}
 		for _, e := range effOf[c] {
-			collide[e]++
+			if !seen[e] {
+				collideAny[e]++
+				if viaOuter[e] {
+					collide[e]++
+				}
+			}
+			seen[e] = true
 		}
 		for _, f := range finOf[c] {
-			collideFin[f]++
+			if f.tgt == "N" { // translated by the nested delivery
+				collideFin[f]++
+			}
 		}
 	}
 	anyCollision := false
@@ -455,6 +605,32 @@ func c09Pipe(out *vh.Out, op string) {
 		if n > 1 {
 			anyCollision = true
 		}
+	}
+	manyToOne := false
+	for _, n := range collideAny {
+		if n > 1 {
+			manyToOne = true
+		}
+	}
+	generated := outerFail
+	for _, c := range distinct {
+		for _, f := range finOf[c] {
+			if f.tgt == "NF" || f.tgt == "NA" || f.tgt == "A" {
+				generated = true
+			}
+		}
+	}
+	if manyToOne {
+		out.Stat("pipe.many-to-one-recipient-list")
+		if generated {
+			out.Stat("pipe.many-to-one-recipient-list.with-pipeline-generated-statuses")
+		}
+		if anyCollision {
+			out.Stat("pipe.many-to-one-recipient-list.through-the-reverse-translation(KF-C09-1)")
+		}
+	}
+	if generated {
+		out.Stat("pipe.pipeline-generated-statuses")
 	}
 	chained := false
 	for _, c := range distinct {
@@ -471,8 +647,26 @@ func c09Pipe(out *vh.Out, op string) {
 		}
 	}
 	for _, c := range distinct {
-		want := occ[c] * len(finOf[c])
-		if got[c] != want {
+		// required results (sorted values) and how many further successes may be reported (silent targets)
+		var wantVals []string
+		optional := 0
+		for k := 0; k < occ[c]; k++ {
+			for _, f := range finOf[c] {
+				switch f.tgt {
+				case "a", "Na":
+					optional++
+				case "D", "N":
+					if fail[f.addr] {
+						wantVals = append(wantVals, "f")
+					} else {
+						wantVals = append(wantVals, "o")
+					}
+				default:
+					wantVals = append(wantVals, "f")
+				}
+			}
+		}
+		if got[c] < len(wantVals) || got[c] > len(wantVals)+optional {
 			sig := "C09/pipeline-result-count"
 			for _, e := range effOf[c] {
 				if collide[e] > 1 {
@@ -484,28 +678,23 @@ func c09Pipe(out *vh.Out, op string) {
 					sig = "C09/pipeline-alias-collision-result-misfiled"
 				}
 			}
-			out.Violation(sig, op, fmt.Sprintf("client recipient %s (sent %d times) expanded to %d effective recipients, %d results; %s", name(c), occ[c], len(finOf[c]), got[c], shown))
+			wantS := strconv.Itoa(len(wantVals))
+			if optional > 0 {
+				wantS += ".." + strconv.Itoa(len(wantVals)+optional)
+			}
+			out.Violation(sig, op, fmt.Sprintf("client recipient %s (sent %d times) expanded to %d effective recipients (%s results due), %d results; %s", name(c), occ[c], len(finOf[c]), wantS, got[c], shown))
 			continue
 		}
 		if anyCollision {
 			continue // known finding KF-C09-1: results are misfiled between the colliding recipients
 		}
 		// the results filed under a client-supplied recipient are those of ITS effective recipients
-		var wantVals []string
-		for k := 0; k < occ[c]; k++ {
-			for _, f := range finOf[c] {
-				if fail[f.addr] {
-					wantVals = append(wantVals, "f")
-				} else {
-					wantVals = append(wantVals, "o")
-				}
-			}
-		}
 		sort.Strings(wantVals)
 		gv := append([]string{}, gotVals[c]...)
 		sort.Strings(gv)
-		if strings.Join(gv, "") != strings.Join(wantVals, "") {
-			out.Violation("C09/pipeline-result-of-another-recipient", op, fmt.Sprintf("client recipient %s: its effective recipients ended %v, results reported under it %v; %s", name(c), wantVals, gv, shown))
+		nf := func(l []string) int { return strings.Count(strings.Join(l, ""), "f") }
+		if nf(gv) != nf(wantVals) {
+			out.Violation("C09/pipeline-result-of-another-recipient", op, fmt.Sprintf("client recipient %s: its effective recipients ended %v (+%d that may be reported as delivered), results reported under it %v; %s", name(c), wantVals, optional, gv, shown))
 		}
 	}
 	out.Stat("pipe.clients." + strconv.Itoa(len(clients)))
@@ -617,7 +806,7 @@ func c09PGenRespell(r *vh.Rng, out *vh.Out) (parts, effs []string) {
 // address, two, another spelling of the same mailbox, or - rarely - the address of a client recipient
 // that itself stays outside the nested pipeline). Every address a target sees stays unique (not the
 // collision of KF-C09-1). Returns the token and the FINAL effective tokens.
-func c09PGenNest(r *vh.Rng, out *vh.Out, parts []string, place string) (string, []string) {
+func c09PGenNest(r *vh.Rng, out *vh.Out, parts []string, place string, innerManyToOne bool) (string, []string) {
 	type path struct{ c, x string }
 	var paths []path
 	used := map[string]bool{}
@@ -740,6 +929,49 @@ func c09PGenNest(r *vh.Rng, out *vh.Out, parts []string, place string) (string, 
 		inner = append(inner, p.x+":"+strings.Join(tg, "+"))
 		finals = append(finals, tg...)
 	}
+	// the INNER rewrites are many-to-one: two addresses the nested pipeline is given become one, or one of them
+	// becomes the other (only asked for when the nested delivery's results are generated by a pipeline)
+	if innerManyToOne {
+		var rx []string
+		seenX := map[string]bool{}
+		for _, p := range paths {
+			if isRouted(p) && !seenX[p.x] {
+				seenX[p.x] = true
+				rx = append(rx, p.x)
+			}
+		}
+		if len(rx) >= 2 {
+			pm := c09PPerm(r, len(rx))
+			xs := []string{rx[pm[0]], rx[pm[1]]}
+			if len(rx) >= 3 && r.Chance(30) {
+				xs = append(xs, rx[pm[2]])
+			}
+			var keep []string
+			for _, e := range inner {
+				drop := false
+				for _, x := range xs {
+					drop = drop || strings.HasPrefix(e, x+":")
+				}
+				if !drop {
+					keep = append(keep, e)
+				}
+			}
+			inner = keep
+			if r.Chance(50) {
+				next++
+				y := strconv.Itoa(next)
+				for _, x := range xs {
+					inner = append(inner, x+":"+y)
+				}
+				finals = append(finals, y)
+			} else {
+				for _, x := range xs[1:] {
+					inner = append(inner, x+":"+xs[0])
+				}
+			}
+			out.Stat("pipe.nested.inner-rewrites-many-to-one")
+		}
+	}
 	rt := "*"
 	if !all {
 		rt = strings.Join(routedToks, "+")
@@ -750,6 +982,106 @@ func c09PGenNest(r *vh.Rng, out *vh.Out, parts []string, place string) (string, 
 	}
 	return fmt.Sprintf("%c%c:%s:%s", "RM"[r.Intn(2)], "gsr"[r.Intn(3)], rt, in), finals
 }
+
+// c09PGenManyToOne: recipient lists on which the effective->client table is neither injective nor total:
+// an alias together with the mailbox it is rewritten to (1:2,2:), two or three aliases of one mailbox
+// (fresh: 1:20,2:20 / itself supplied: 1:3,2:3,3:), two spellings normalised to one (1u:1,1: / 1u:1,1D:1),
+// a chain that ends in a supplied mailbox (1:2,2:3,3:); decorated with a 1-to-N expansion, an unrelated
+// recipient, a client address sent twice; in every order. Returns the parts and the tokens of the
+// recipients involved (client side / effective side) - the caller sees to it that their results are
+// generated by the pipeline (whole-delivery failure) and do not pass the reverse translation (KF-C09-1).
+func c09PGenManyToOne(r *vh.Rng) (parts, effs, cliToks, effToks []string) {
+	next := 19
+	fresh := func() string { next++; return strconv.Itoa(next) }
+	var tg [][2]string
+	switch r.Intn(7) {
+	case 0:
+		tg = [][2]string{{"1", "2"}, {"2", ""}}
+	case 1:
+		m := fresh()
+		tg = [][2]string{{"1", m}, {"2", m}}
+		if r.Chance(35) {
+			tg = append(tg, [2]string{"3", m})
+		}
+	case 2:
+		tg = [][2]string{{"1", "3"}, {"2", "3"}, {"3", ""}}
+	case 3:
+		fam := r.Pick("uUD", "iIxX", "cdC")
+		f := []byte(fam)
+		for k := len(f) - 1; k > 0; k-- {
+			j := r.Intn(k + 1)
+			f[k], f[j] = f[j], f[k]
+		}
+		base := "1"
+		if fam != "uUD" {
+			base = "1" + string(rune(f[2]))
+		}
+		a, b := "1"+string(rune(f[0])), "1"+string(rune(f[1]))
+		if r.Chance(50) {
+			tg = [][2]string{{a, base}, {base, ""}}
+		} else {
+			tg = [][2]string{{a, base}, {b, base}}
+			if r.Chance(40) {
+				tg = append(tg, [2]string{base, ""})
+			}
+		}
+	case 4:
+		tg = [][2]string{{"1", "2"}, {"2", "3"}, {"3", ""}}
+	case 5:
+		// alias of a mailbox that is supplied too and itself an alias of a third that is supplied: 1:2,2:3,3:,4:3
+		tg = [][2]string{{"1", "2"}, {"2", "3"}, {"3", ""}, {"4", "3"}}
+	default:
+		// two independent groups
+		m := fresh()
+		tg = [][2]string{{"1", "2"}, {"2", ""}, {"3", m}, {"4", m}}
+	}
+	for _, t := range tg {
+		cliToks = append(cliToks, t[0])
+		if t[1] != "" {
+			effToks = append(effToks, t[1])
+		} else {
+			effToks = append(effToks, t[0])
+		}
+	}
+	// a 1-to-N expansion inside the group
+	if r.Chance(30) {
+		k := r.Intn(len(tg))
+		if tg[k][1] != "" {
+			x := fresh()
+			effToks = append(effToks, x)
+			if r.Chance(50) {
+				tg[k][1] += "+" + x
+			} else {
+				tg[k][1] = x + "+" + tg[k][1]
+			}
+		}
+	}
+	// unrelated recipients (their results may come from the per-recipient target)
+	for c := 5; c <= 6; c++ {
+		if r.Chance(40) {
+			if r.Chance(50) {
+				tg = append(tg, [2]string{strconv.Itoa(c), ""})
+			} else {
+				tg = append(tg, [2]string{strconv.Itoa(c), fresh()})
+			}
+		}
+	}
+	for _, t := range tg {
+		parts = append(parts, t[0]+":"+t[1])
+		e := t[1]
+		if e == "" {
+			e = t[0]
+		}
+		effs = append(effs, strings.Split(e, "+")...)
+	}
+	for k := len(parts) - 1; k > 0; k-- {
+		j := r.Intn(k + 1)
+		parts[k], parts[j] = parts[j], parts[k]
+	}
+	return
+}
+
+var c09PStages = []string{"cg", "cs", "cr", "ar", "mg", "ms", "mr"}
 
 func c09PPerm(r *vh.Rng, n int) []int {
 	p := make([]int, n)
@@ -782,7 +1114,8 @@ func TestVerifC09Pipeline(t *testing.T) {
 		var parts []string
 		var effs []string
 		respell := r.Chance(30)
-		if respell {
+		manyToOne := !respell && r.Chance(22)
+		if respell || manyToOne {
 			nc = 0
 		}
 		for c := 1; c <= nc; c++ {
@@ -802,8 +1135,11 @@ func TestVerifC09Pipeline(t *testing.T) {
 		}
 		collision := false
 		// occasionally make two clients collide on one effective address
+		var m21Cli, m21Eff []string
 		if respell {
 			parts, effs = c09PGenRespell(r, out)
+		} else if manyToOne {
+			parts, effs, m21Cli, m21Eff = c09PGenManyToOne(r)
 		} else if nc >= 2 && r.Chance(10) {
 			collision = true
 			parts[0] = "1:77"
@@ -874,7 +1210,11 @@ func TestVerifC09Pipeline(t *testing.T) {
 			}
 		}
 		// the client sends one of its addresses twice (or three times)
-		if !collision && r.Chance(12) {
+		dupChance := 12
+		if manyToOne {
+			dupChance = 25
+		}
+		if !collision && r.Chance(dupChance) {
 			k := r.Intn(len(parts))
 			for n := 1 + r.Intn(2); n > 0; n-- {
 				j := r.Intn(len(parts) + 1)
@@ -886,13 +1226,97 @@ func TestVerifC09Pipeline(t *testing.T) {
 				parts[j] = parts[k]
 			}
 		}
-		// a nested pipeline behind the outer one (reroute / pipeline as a target)
+		// a nested pipeline behind the outer one (reroute / pipeline as a target); where the body stage fails
+		// for a whole delivery and which targets have no per-recipient results, so that the PIPELINE has to
+		// produce the results (tokens S = outer, I = nested pipeline)
 		place := r.Pick("g", "s", "r")
-		nestTok := ""
-		if !collision && r.Chance(45) {
-			nestTok, effs = c09PGenNest(r, out, parts, place)
-			nestTok = " " + nestTok
+		nestTok, planTok := "", ""
+		lookToks := func() []string { // what the outer pipeline chooses destination blocks by
+			var l []string
+			seen := map[string]bool{}
+			for _, p := range parts {
+				f := strings.Split(p, ":")
+				cand := []string{f[0]}
+				if place != "r" && f[1] != "" {
+					cand = strings.Split(f[1], "+")
+				}
+				for _, t := range cand {
+					if !seen[t] {
+						seen[t] = true
+						l = append(l, t)
+					}
+				}
+			}
+			return l
 		}
+		stagePlan := func(tag string) string {
+			return tag + c09PStages[r.Intn(len(c09PStages))] + "/" + r.Pick("p", "p", "a", "A")
+		}
+		switch {
+		case collision:
+		case manyToOne:
+			// every result of the recipients involved has to be generated by the pipeline
+			switch x := r.Intn(100); {
+			case x < 55:
+				planTok = " " + stagePlan("S")
+				if r.Chance(35) {
+					ip := ""
+					if r.Chance(40) {
+						ip = " " + stagePlan("I")
+					}
+					nestTok, effs = c09PGenNest(r, out, parts, place, r.Chance(50))
+					nestTok = " " + nestTok + ip
+				}
+			case x < 80:
+				planTok = " S-/" + r.Pick("A", "A", "A", "A", "a")
+			default:
+				rt := m21Eff
+				if place == "r" {
+					rt = m21Cli
+				}
+				seen := map[string]bool{}
+				var l []string
+				for _, t := range rt {
+					if !seen[t] {
+						seen[t] = true
+						l = append(l, t)
+					}
+				}
+				planTok = " S-/A/" + strings.Join(l, "+")
+			}
+		default:
+			if r.Chance(30) {
+				switch x := r.Intn(100); {
+				case x < 50:
+					planTok = " " + stagePlan("S")
+				case x < 75:
+					planTok = " S-/" + r.Pick("A", "A", "a")
+				default:
+					l := lookToks()
+					k := 1 + r.Intn(len(l))
+					var sub []string
+					for _, i := range c09PPerm(r, len(l))[:k] {
+						sub = append(sub, l[i])
+					}
+					planTok = " S-/" + r.Pick("A", "A", "a") + "/" + strings.Join(sub, "+")
+				}
+			}
+			if r.Chance(45) {
+				ip := ""
+				gen := strings.HasPrefix(planTok, " S") && !strings.HasPrefix(planTok, " S-")
+				if r.Chance(40) {
+					if r.Chance(60) {
+						ip = " " + stagePlan("I")
+					} else {
+						ip = " I-/" + r.Pick("A", "A", "a")
+					}
+					gen = true
+				}
+				nestTok, effs = c09PGenNest(r, out, parts, place, gen && r.Chance(45))
+				nestTok = " " + nestTok + ip
+			}
+		}
+		nestTok += planTok
 		var fails []string
 		for _, e := range effs {
 			if r.Chance(30) {
